@@ -318,6 +318,142 @@ def lookup_order(ctx, rep, clause):
            o == ['contains_name', 'contains_synonym'], 'name, synonym', f'order is {o}', f.loc(), clause)
 
 
+def ambiguous_tokens(ctx, rep, clause):
+    """Unimod delta_composition tokens that are both an element symbol of the bundled table and a substituent
+    name/synonym of the monosaccharide table.  Which reading Unimod means is a data fact recomputed each run from the
+    entry's own tabulated monoisotopic mass (own readers of the three data files, nothing of the package is run):
+    a token for which only the substituent reading reproduces the tabulated mass must be special-cased by the
+    Unimod reader, which otherwise prefers the element reading."""
+    import re as _re
+    from .. import rules_tab as rt
+    program = ctx.program
+    data = os.path.join(program.pkg_dir, 'data')
+    iso = rt.read_chem_txt(program)
+    best = {}
+    for (sym, a), (m, ab) in iso.items():
+        if sym not in best or ab > best[sym][1]:
+            best[sym] = (m, ab)
+    mono = {k: v[0] for k, v in best.items()}
+    by_label = {f'{a}{sym}': m for (sym, a), (m, ab) in iso.items()}
+    by_label.update({'2H': iso.get(('D', 2), (0,))[0], '3H': iso.get(('T', 3), (0,))[0]})
+    subs = {}
+    cur_names, cur_formula = [], None
+
+    def flush():
+        if cur_formula:
+            for nm in cur_names:
+                subs.setdefault(nm, cur_formula)
+    with open(os.path.join(data, 'monosaccharides_updated.obo')) as fh:
+        for line in fh:
+            if line.startswith('[Term]'):
+                flush()
+                cur_names, cur_formula = [], None
+            elif line.startswith('name: '):
+                cur_names.append(line[len('name: '):].strip())
+            elif line.startswith('synonym: '):
+                m = _re.search(r'"([^"]+)"', line)
+                if m:
+                    cur_names.append(m.group(1))
+            elif line.startswith('property_value: has_chemical_formula'):
+                m = _re.search(r'"([^"]+)"', line)
+                if m:
+                    cur_formula = m.group(1)
+    flush()
+
+    def formula_mass(f):
+        tot = 0.0
+        for el, cnt in _re.findall(r'([A-Z][a-z]?)(-?\d*)', f):
+            if el not in mono:
+                return None
+            tot += mono[el] * (int(cnt) if cnt not in ('', '-') else 1)
+        return tot
+
+    def token_mass(t, as_sub):
+        if as_sub and t in subs:
+            return formula_mass(subs[t])
+        if t in mono:
+            return mono[t]
+        if t in by_label:
+            return by_label[t]
+        if t in subs:
+            return formula_mass(subs[t])
+        return None
+
+    need_sub, need_elem = {}, {}
+    n_terms = 0
+    comp, tab = None, None
+
+    def judge():
+        nonlocal n_terms
+        if comp is None or tab is None:
+            return
+        toks = []
+        for t in comp.split():
+            m = _re.match(r'^([A-Za-z0-9]+)(?:\((-?\d+)\))?$', t)
+            if not m:
+                return
+            toks.append((m.group(1), int(m.group(2)) if m.group(2) else 1))
+        amb = [t for t, _ in toks if t in mono and t in subs]
+        if not amb:
+            return
+        n_terms += 1
+        for a in set(amb):
+            def total(sub_for_a):
+                tot = 0.0
+                for t, c in toks:
+                    mt = token_mass(t, as_sub=(t == a and sub_for_a))
+                    if mt is None:
+                        return None
+                    tot += mt * c
+                return tot
+            me, ms = total(False), total(True)
+            if me is None or ms is None:
+                continue
+            if abs(ms - tab) < 0.01 < abs(me - tab):
+                need_sub[a] = need_sub.get(a, 0) + 1
+            elif abs(me - tab) < 0.01 < abs(ms - tab):
+                need_elem[a] = need_elem.get(a, 0) + 1
+    with open(os.path.join(data, 'unimod.obo'), encoding='utf-8', errors='replace') as fh:
+        for line in fh:
+            if line.startswith('[Term]'):
+                judge()
+                comp, tab = None, None
+            elif line.startswith('xref: delta_composition'):
+                m = _re.search(r'"([^"]*)"', line)
+                comp = m.group(1) if m else None
+            elif line.startswith('xref: delta_mono_mass'):
+                m = _re.search(r'"([^"]*)"', line)
+                try:
+                    tab = float(m.group(1)) if m else None
+                except ValueError:
+                    tab = None
+    judge()
+    f = program.func('peptacular.mods.mod_db_setup:_get_unimod_entries')
+    special = set()
+    for n in walk_own(f.node):
+        if isinstance(n, ast.If) and '_glycan_comp(' in ' '.join(norm_stmt(s) for s in n.body):
+            for c in ast.walk(n.test):
+                if isinstance(c, ast.Compare) and len(c.ops) == 1 and isinstance(c.ops[0], ast.Eq) and \
+                        isinstance(c.comparators[0], ast.Constant):
+                    special.add(c.comparators[0].value)
+    rep.coverage_extra['unimod_terms_with_ambiguous_tokens'] = n_terms
+    rep.coverage_extra['tokens_needing_substituent_reading'] = need_sub
+    rep.coverage_extra['tokens_needing_element_reading'] = need_elem
+    if n_terms < 50:
+        raise AnalysisError(f'unimod.obo: only {n_terms} terms with ambiguous tokens read')
+    for t, k in sorted(need_sub.items()):
+        ob(rep, 'TOK-ambiguous', f.fq, f"Unimod composition token '{t}' is read as a substituent ({k} entries need it)",
+           t in special, f'special-cased: {sorted(special)}',
+           f"'{t}' is an element symbol of the bundled table, but {k} Unimod entries reproduce their own tabulated mass "
+           f"only when it is read as the substituent '{subs.get(t)}'; the Unimod reader does not special-case it, so the "
+           f"tabulated composition of those entries contains the element and no longer matches the tabulated mass",
+           f.loc(), clause)
+    for t, k in sorted(need_elem.items()):
+        ob(rep, 'TOK-ambiguous', f.fq, f"Unimod composition token '{t}' is read as an element ({k} entries need it)",
+           t not in special, 'element reading (default)', f"'{t}' is special-cased as a substituent but {k} entries "
+           f"need the element", f.loc(), clause)
+
+
 def check(ctx, rep):
     rep.explanation = EXPLANATION
     an, program = ctx.analyzer, ctx.program
@@ -325,6 +461,7 @@ def check(ctx, rep):
     strip_rule(ctx, rep, 'C10b')
     dispatch_parity(ctx, rep, 'C10c')
     lookup_order(ctx, rep, 'C10d')
+    ambiguous_tokens(ctx, rep, 'C10f')
     callers = {f.fq for f in program.all_functions() if f.module.name in (MOD_DB, 'peptacular.mass_calc',
                                                                           'peptacular.glycan')}
     n = add_fwd(rep, forwarding(an, program, ['monoisotopic'], callers=callers), 'C10e')
